@@ -384,6 +384,10 @@ class SupervisorProxyThread(threading.Thread, SupervisorProxy):
 
     def process_event(self, event):
         """ Proceed with the event depending on its type. """
+        # nothing is sent to an ISOLATED Supvisors instance, including what was queued before it has been isolated
+        # (the proxy is stopped lazily, at the next message pushed by the main thread)
+        if self.status.isolated:
+            return
         try:
             event_type, (source, event_body) = event
             if event_type == InternalEventHeaders.REQUEST:
